@@ -107,6 +107,12 @@ def gen_cbtf(r, idx):
         c["kscale"] = -40 if idx % 8 == 3 else 30
         f2 = 2.0 ** c["kscale"]
         m, b, k = m * f2, b * f2, k * f2
+    c["cplx_mass_only"] = False
+    if cplx and idx % 5 == 2:
+        # complex entries in the MASS only (damping and stiffness real): the system is
+        # complex all the same
+        b, k = np.real(b).copy(), np.real(k).copy()
+        c["cplx_mass_only"] = True
     c.update(nb=nb, nq=nq, n=n, bset=bset, qset=qset, m=m, b=b, k=k, freq=freq, a=a)
     return c
 
@@ -171,6 +177,8 @@ def run_cbtf(sh, params):
             sh.count("cell:cbtf:qq-" + ("full" if c["qqfull"] else "diag"))
             if c["kscale"]:
                 sh.count("cell:cbtf:force-unit-" + ("tiny" if c["kscale"] < 0 else "huge"))
+            if c["cplx_mass_only"]:
+                sh.count("cell:cbtf:complex-mass-only")
         sh.case(case, True, sample={"case": case, "tags": tags, "nb": c["nb"],
                                     "nq": c["nq"], "bset": c["bset"],
                                     "freq": c["freq"]})
